@@ -1020,9 +1020,7 @@ func TestDOTWords(t *testing.T) {
 
 // ---- totality -------------------------------------------------------------------------------------------
 
-type dotBytesCase struct {
-	Data []byte
-}
+type dotBytesCase = vk.BytesCase
 
 var dotSnippets = []string{
 	"digraph G { a -> b -> c; }",
@@ -1041,6 +1039,9 @@ var dotSoup = []string{"digraph", "graph", "strict", "subgraph", "node", "edge",
 
 func checkDOTBytes(c dotBytesCase) *vk.Failure {
 	vk.Sample("dot-total", c)
+	if len(c.Data) > maxBytesCase {
+		return nil
+	}
 	var perr error
 	var f *vk.Failure
 	r := vk.Call(func() {
@@ -1138,16 +1139,16 @@ func drawDOTBytes(t *rapid.T) dotBytesCase {
 	}
 	switch rapid.IntRange(0, 7).Draw(t, "kind") {
 	case 0:
-		return dotBytesCase{valid("v")}
+		return dotBytesCase{Data: valid("v")}
 	case 1, 2, 3:
-		return dotBytesCase{mutate(t, valid("v"), valid("o"), 2048)}
+		return dotBytesCase{Data: mutate(t, valid("v"), valid("o"), 2048)}
 	case 4, 5:
-		return dotBytesCase{[]byte(strings.Join(rapid.SliceOfN(rapid.SampledFrom(dotSoup), 0, 24).Draw(t, "soup"), ""))}
+		return dotBytesCase{Data: []byte(strings.Join(rapid.SliceOfN(rapid.SampledFrom(dotSoup), 0, 24).Draw(t, "soup"), ""))}
 	case 6: // deep nesting
 		d := rapid.IntRange(1, 200).Draw(t, "depth")
-		return dotBytesCase{[]byte("graph {" + strings.Repeat("{", d) + "a" + strings.Repeat("}", d) + " -- b }")}
+		return dotBytesCase{Data: []byte("graph {" + strings.Repeat("{", d) + "a" + strings.Repeat("}", d) + " -- b }")}
 	default:
-		return dotBytesCase{rapid.SliceOfN(rapid.Byte(), 0, 48).Draw(t, "bytes")}
+		return dotBytesCase{Data: rapid.SliceOfN(rapid.Byte(), 0, 48).Draw(t, "bytes")}
 	}
 }
 
